@@ -16,7 +16,8 @@ for f in sorted((C.ROOT / "check" / "props").glob("C*.py")):
         except Exception as e: print("regenerate failed for", f.stem, e)
     for m in getattr(P, "LEAN_MODULES", []):
         if m not in mods: mods.append(m)
-ok, out = C.lake_build(mods + ["driver"])
+drivers = sorted({"driver_" + P.DRIVER_MODE for _, P in props})
+ok, out = C.lake_build(mods + drivers)
 print(out[-3000:] if not ok else "lean build ok (%d modules) %.0fs" % (len(mods), time.time() - t0))
 rc = 0 if ok else 1
 for pid, P in props:
